@@ -549,6 +549,11 @@ func (ex *exprTr) call(x *ast.CallExpr) Val {
 	case "verif_unhex", "verif_hexok":
 		vc.bytesOn()
 		return Val{t: app("bytes."+name[6:], ex.tr(x.Args[0]).t), typ: rt}
+	case "verif_same":
+		// identity of values (floats: the very same value, unlike IEEE ==; strings: the same string value)
+		a, b := ex.tr(x.Args[0]), ex.tr(x.Args[1])
+		pt := ex.typeOf(x.Args[0])
+		return Val{t: eq(ex.coerce(a, pt), ex.coerce(b, pt)), typ: rt}
 	case "verif_sameArray":
 		a, b := ex.tr(x.Args[0]), ex.tr(x.Args[1])
 		return Val{t: eq(slRef(a.t), slRef(b.t)), typ: rt}
